@@ -308,7 +308,11 @@ class Scen:
         rng = self.rng
         for f, kind in rng.sample(self.funcs, min(len(self.funcs), rng.choice([1, 2, 3]))):
             arg = rng.choice([0, 1, 2, 7, 12, 33])
-            how = rng.choice(['call', 'call', 'interp'] if iface == 'interp' else ['call', 'call', 'gen'])
+            # no explicit MIR_gen under the lazy-BB interface: after a function has run BB-wise its IR is left transformed
+            # (MIR_gen then fails with "undeclared reg" or builds a CFG from stale label data -- wild writes under ASan);
+            # a defect of another property (C16: generation can be repeated), reported to the coordinator
+            how = rng.choice(['call', 'call', 'interp'] if iface == 'interp' else
+                             ['call', 'call', 'gen'] if iface != 'lazybb' else ['call'])
             if how == 'gen':
                 self.lines.append('gen %s' % f)
             self.lines.append('%s %s %d' % ('interp' if how == 'interp' else 'call', f, arg))
@@ -544,7 +548,7 @@ def valid(lines):
         elif cmd in ('call', 'interp', 'gen'):
             if s['defined'].get(a1, 10 ** 9) > s['linked']:
                 return False
-            if cmd == 'gen' and not s['gen']:
+            if cmd == 'gen' and (not s['gen'] or s['iface'] == 'lazybb'):
                 return False
             if cmd == 'interp' and s['iface'] != 'interp':
                 return False
